@@ -387,6 +387,10 @@ func (ex *Exec) addAssigns(ms *modSet, c *Contract) {
 }
 
 func (ex *Exec) enterLoop(fr *Frame, li *loopInfo, b *ssa.BasicBlock, st *State, pc Term, phiIn func(*ssa.Phi) Val) {
+	if len(ex.invAllocs) > 0 {
+		ex.checkInvAllocs(fr, st, pc, 0, fmt.Sprintf("loop%d.entry", li.ord))
+	}
+	li.invMark = len(ex.invAllocs)
 	// 1. initial phi values; invariant holds on entry
 	initPhis := map[*ssa.Phi]Val{}
 	for _, in := range b.Instrs {
@@ -522,6 +526,12 @@ func (ex *Exec) freshLike(v Val, t types.Type, hint string) Val {
 }
 
 func (ex *Exec) backEdge(fr *Frame, li *loopInfo, from, header *ssa.BasicBlock, st *State, pc Term) {
+	if li != nil && len(ex.invAllocs) > li.invMark {
+		savedPC := fr.blockPC
+		fr.blockPC = pc
+		ex.checkInvAllocs(fr, st, pc, li.invMark, fmt.Sprintf("loop%d.back", li.ord))
+		fr.blockPC = savedPC
+	}
 	if li == nil || li.spec == nil {
 		return
 	}
@@ -664,6 +674,15 @@ func (ex *Exec) instr(fr *Frame, st *State, in ssa.Instruction) {
 		ex.sc.Assert(app(SBool, ">", r, IntLit(0)))
 		// zero-initialise
 		ex.storeHeapTyped(st, r, elem, elem, "", ex.zeroVal(elem))
+		if len(ex.cs.FieldInvs) > 0 {
+			var ls []leafT
+			structLeaves(elem, nil, "", &ls)
+			for _, l := range ls {
+				if k := heapKeyFor(elem, l.name); ex.cs.fieldInv(k) != nil {
+					ex.invAllocs = append(ex.invAllocs, invAlloc{key: k, ref: r, pc: fr.blockPC, pos: x.Pos()})
+				}
+			}
+		}
 	case *ssa.Store:
 		ex.store(fr, st, ex.get(fr, x.Addr), ex.get(fr, x.Val), x.Val.Type(), x.Pos())
 	case *ssa.UnOp:
@@ -792,8 +811,23 @@ func (ex *Exec) instr(fr *Frame, st *State, in ssa.Instruction) {
 				msg = msg[:50]
 			}
 			tolerated := false
+			var aps []AllowPanic
 			if ex.contract != nil {
-				for _, ap := range ex.contract.AllowPanics {
+				aps = append(aps, ex.contract.AllowPanics...)
+			}
+			// documented panics of inlined callees count when their contract is
+			// for the property being checked
+			for _, sfn := range ex.stack {
+				if c := ex.cs.Funcs[funcKey(sfn)]; c != nil && c != ex.contract && (currentProp == "" || hasProp(c.Props, currentProp)) {
+					for _, ap := range c.AllowPanics {
+						if ap.When == nil {
+							aps = append(aps, ap)
+						}
+					}
+				}
+			}
+			if len(aps) > 0 {
+				for _, ap := range aps {
 					if strings.Contains(msg, ap.Text) {
 						tolerated = true
 						// the tolerated panic is itself conditional: its reach condition must imply the stated condition
@@ -1202,6 +1236,12 @@ func (ex *Exec) typeAssert(fr *Frame, st *State, x *ssa.TypeAssert) Val {
 		} else {
 			ok = Eq(tag, IntLit(int64(ex.typeTag(x.AssertedType))))
 			res = ex.decodeData(x.AssertedType, app(SInt, "if.data", t))
+			if _, isPtr := x.AssertedType.Underlying().(*types.Pointer); isPtr {
+				// a pointer held by an interface value refers to an existing object
+				if sv, isSV := res.(SV); isSV && sv.T.Sort == SInt {
+					ex.sc.Assert(Implies(ok, And(app(SBool, ">=", sv.T, IntLit(0)), app(SBool, "<", sv.T, st.alloc))))
+				}
+			}
 			if x.CommaOk {
 				res = ex.mergeVal(ok, res, ex.zeroVal(x.AssertedType))
 			}
